@@ -205,6 +205,8 @@ def register(I):
             return v
         if isinstance(v, StringV):
             return string_as_str(v)
+        if isinstance(v, BoxV):
+            return ValRef(v.v)
         return ValRef(v)
 
     def string_as_str(v):
@@ -791,6 +793,28 @@ def register(I):
                 m = m.insert(I, k, v, st)[0]
             return m
         raise Unsupported("collect into " + target)
+
+    # ----------------------------------------------------------------- arithmetic operator traits on primitives
+    # (core's impls carry #[rustc_inherit_overflow_checks]: they panic on overflow iff the calling
+    #  crate is built with overflow checks, i.e. in the DEV profile)
+    def arith(opname, msg):
+        def h(I, st, args, info):
+            ty = _interp.short_type(info.path.qself or "").lstrip("&").strip()
+            if ty not in _interp.INT_TYPES:
+                raise Unsupported("operator trait %s on %s" % (opname, ty))
+            a, b = deref_all(I, args[0], st), deref_all(I, args[1], st)
+            r, ov = I.binop(opname + "WithOverflow", a, b, ty)
+            if I.profile == "dev":
+                if ov is True:
+                    raise PanicExc(msg)
+                if ov is not False:
+                    return Outcomes([(b_not(ov), r), (ov, Panic(msg, "core::ops::%s" % opname))])
+            return r
+        h.__name__ = "prim_" + opname
+        return h
+    R["Mul::mul"] = arith("Mul", "attempt to multiply with overflow")
+    R["Add::add"] = arith("Add", "attempt to add with overflow")
+    R["Sub::sub"] = arith("Sub", "attempt to subtract with overflow")
 
     # ----------------------------------------------------------------- misc
     @reg("Fn::call", "FnMut::call_mut", "FnOnce::call_once")
